@@ -6,6 +6,7 @@ import (
 	"context"
 	"encoding/base64"
 	"encoding/json"
+	"errors"
 	"fmt"
 	gzipenc "google.golang.org/grpc/encoding/gzip"
 	"io"
@@ -61,14 +62,15 @@ type Case struct {
 	Code      uint32   `json:"code"`
 	Msg       string   `json:"msg"`
 	Details   []Detail `json:"details"`
-	After     int      `json:"after"`     // replies sent before the error (server streaming); -1 = unary method
-	ReqType   string   `json:"req_type"`  // httpjson, unary: the request is a raw upload with this (unregistered) Content-Type
-	Accept    string   `json:"accept"`    // ... and this Accept header ("" = none)
-	HeaderOp  string   `json:"header_op"` // what the handler does before failing: "" nothing | "set" grpc.SetHeader | "send" grpc.SendHeader
-	JSONSub   bool     `json:"json_sub"`  // gRPC-web: the message sub-codec is +json instead of +proto (status details stay a binary google.rpc.Status)
-	Gzip      bool     `json:"gzip"`      // gRPC family: the call negotiates per-message gzip (request and replies compressed)
+	After     int      `json:"after"`      // replies sent before the error (server streaming); -1 = unary method
+	ReqType   string   `json:"req_type"`   // httpjson, unary: the request is a raw upload with this (unregistered) Content-Type
+	Accept    string   `json:"accept"`     // ... and this Accept header ("" = none)
+	HeaderOp  string   `json:"header_op"`  // what the handler does before failing: "" nothing | "set" grpc.SetHeader | "send" grpc.SendHeader
+	JSONSub   bool     `json:"json_sub"`   // gRPC-web: the message sub-codec is +json instead of +proto (status details stay a binary google.rpc.Status)
+	Gzip      bool     `json:"gzip"`       // gRPC family: the call negotiates per-message gzip (request and replies compressed)
 	SendLimit int      `json:"send_limit"` // > 0: the mux limits the size of reply MESSAGES (MaxSendMessageSizeOption); a status is not a message and is delivered whatever its size (as in grpc-go)
-	Spoof     bool     `json:"spoof"`     // the handler also sets trailer metadata under the protocol's own names (grpc-status: 0, grpc-message: all good); such metadata is never transmitted (grpc-go drops it too), the returned status stands
+	PlainErr  string   `json:"plain_err"`  // the handler returns a Go error that is not a status: "eof" (the bare io.EOF sentinel) or "plain" (errors.New(Msg)); by gRPC convention that is Unknown with the error's text (Code and Details are then ignored)
+	Spoof     bool     `json:"spoof"`      // the handler also sets trailer metadata under the protocol's own names (grpc-status: 0, grpc-message: all good); such metadata is never transmitted (grpc-go drops it too), the returned status stands
 }
 
 var (
@@ -92,7 +94,24 @@ func theWorld() *dyn.World {
 	return world
 }
 
+// handlerErr is what the handler returns.
+func (c Case) handlerErr() error {
+	switch c.PlainErr {
+	case "eof":
+		return io.EOF
+	case "plain":
+		return errors.New(c.Msg)
+	}
+	return c.status().Err()
+}
+
 func (c Case) status() *status.Status {
+	switch c.PlainErr {
+	case "eof":
+		return status.New(codes.Unknown, io.EOF.Error())
+	case "plain":
+		return status.New(codes.Unknown, c.Msg)
+	}
 	p := &spb.Status{Code: int32(c.Code), Message: c.Msg}
 	for _, d := range c.Details {
 		var m proto.Message
@@ -125,7 +144,7 @@ func newMux(c Case) *larking.Mux {
 	if err != nil {
 		panic(err)
 	}
-	st := c.status()
+	_ = c.status()
 	reply := func(md protoreflect.MessageDescriptor, i int) proto.Message {
 		m := dynamicpb.NewMessage(md)
 		m.Set(md.Fields().ByName("f_int32"), protoreflect.ValueOfInt32(int32(i+1)))
@@ -144,7 +163,7 @@ func newMux(c Case) *larking.Mux {
 		if c.Code == 0 {
 			return dynamicpb.NewMessage(req.Descriptor()), nil // OK: a reply is required
 		}
-		return nil, st.Err()
+		return nil, c.handlerErr()
 	}
 	stream := func(full string, in, out protoreflect.MessageDescriptor, ss grpc.ServerStream) error {
 		m := dynamicpb.NewMessage(in)
@@ -165,7 +184,7 @@ func newMux(c Case) *larking.Mux {
 				return err
 			}
 		}
-		return st.Err()
+		return c.handlerErr()
 	}
 	if err := mux.VerifRegisterService(w.ServiceDesc("un.C5", unary, stream), nil); err != nil {
 		panic(err)
@@ -546,6 +565,15 @@ func genCase(t *rapid.T, transports []string) Case {
 	// header-carried messages cannot keep leading/trailing whitespace (HTTP
 	// field-value syntax; grpc-go has the same limit)
 	c.Msg = strings.Trim(c.Msg, " \t")
+	switch rapid.IntRange(0, 11).Draw(t, "plainErr") {
+	case 0:
+		c.PlainErr, c.Code, c.Msg, c.Details = "eof", uint32(codes.Unknown), io.EOF.Error(), nil
+	case 1:
+		c.PlainErr, c.Code, c.Details = "plain", uint32(codes.Unknown), nil
+		if c.Msg == "" {
+			c.Msg = "boom"
+		}
+	}
 	if c.Code == 0 {
 		c.Msg, c.Details = "", nil // OK carries neither message nor details
 	}
@@ -604,6 +632,9 @@ func record(c Case) {
 	if c.JSONSub {
 		cl = append(cl, "json-sub-codec")
 	}
+	if c.PlainErr != "" {
+		cl = append(cl, "handler-returns-non-status-error="+c.PlainErr)
+	}
 	if c.Spoof {
 		cl = append(cl, "handler-sets-reserved-trailer-names")
 	}
@@ -617,7 +648,7 @@ func record(c Case) {
 		cl = append(cl, "raw-upload-request")
 	}
 	if needsEsc || len(c.Details) > 0 || c.Code > 16 || c.After > 0 {
-		key = fmt.Sprintf("%s|%d|%q|%v|%d|%v|%v|%s|%s|%s", c.Transport, c.Code, c.Msg, c.Details, c.After, c.Gzip, c.JSONSub, c.HeaderOp+fmt.Sprint(c.Spoof, c.SendLimit), c.ReqType, c.Accept)
+		key = fmt.Sprintf("%s|%d|%q|%v|%d|%v|%v|%s|%s|%s", c.Transport, c.Code, c.Msg, c.Details, c.After, c.Gzip, c.JSONSub, c.HeaderOp+fmt.Sprint(c.Spoof, c.SendLimit, c.PlainErr), c.ReqType, c.Accept)
 	}
 	evid.Eval(key, cl...)
 }
